@@ -173,6 +173,9 @@ def main(argv=None):
     sys.path.insert(0, VERIF)
     from vlib import build
     t0 = time.time()
+    if a.tier == 'quick' or a.replay:
+        # generated modules: -O0 in the quick tier (see build._opt_suffix)
+        os.environ.setdefault('VERIF_OPT', '-O0')
     work, home = build.activate()
     ctx = Ctx(pid, a.tier, seed, work, home)
     mod = importlib.import_module(CHECKS[pid])
